@@ -1135,3 +1135,128 @@ class csi_set_attr:
             return  # a caller that holds the attribute as an opaque individual learns nothing about it
         yield from csi_set_attr_clauses(old, s, a)
         yield "stored-attribute-is-well-formed", attr_ok(s.attrspec)
+
+
+# =================================================================================================================
+# 7. TermCanvas.reverse_video: every cell of the grid gets the reversed attribute
+# =================================================================================================================
+# The grid contracts (contracts/C15_vterm.py) hold a cell's attribute as an opaque individual.  reverse_attrspec reads
+# nothing but its arguments (static check below), so at this level it is a FUNCTION of (attribute, undo): REV.  What
+# that function does to an AttrSpec is the contract `reverse_attrspec` above (verified against the body); that it is
+# total rests on AttrSpec's representation invariant, which holds for every AttrSpec value.
+from contracts.C15_vterm import mkgrid, modelled, seq_rows_eq, upd  # noqa: E402
+from pyvc.shapes import opaque_sort  # noqa: E402
+
+_REV = z3.Function("reverse_attrspec$value", opaque_sort("Attr"), z3.BoolSort(), opaque_sort("Attr"))
+
+
+def REV(attr, undo):
+    if not (isinstance(attr, SOpaque) and attr.kind == "Attr"):
+        raise Unsupported(f"reverse_attrspec applied to something that is not a cell attribute: {attr!r}")
+    return SOpaque("Attr", _REV(attr.e, V._zb(undo)), dict(attr.meta))
+
+
+def rev_cell(c, undo):
+    return (REV(c[0], undo), c[1], c[2])
+
+
+def reversed_where(s0, undo, done):
+    """The grid of s0 with the attribute of every cell (r, x) with done(r, x) reversed."""
+    return mkgrid(s0, lambda r, x: ite(done(r, x), rev_cell(cell(s0.term, r, x), undo), cell(s0.term, r, x)))
+
+
+def _reads_only_its_arguments():
+    """reverse_attrspec never reads or writes `self`: its result is a function of (attrspec, undo)."""
+    import ast
+
+    from pyvc import source as SRC
+
+    node = SRC.resolve(VT + "TermCanvas.reverse_attrspec").node
+    selfname = node.args.args[0].arg
+    uses = [n for n in ast.walk(node) if isinstance(n, ast.Name) and n.id == selfname]
+    return "reverse-attrspec-is-a-function-of-its-arguments", not uses and [a.arg for a in node.args.args] == ["self", "attrspec", "undo"], f"uses of self: {len(uses)}"
+
+
+@contract(VT + "TermCanvas.reverse_attrspec", property=(), alias="on-opaque-attributes", assumed=True,
+          notes="Call-site view of reverse_attrspec for the grid contracts, where a cell's attribute is an opaque individual: the result is REV(attribute, undo), "
+                "a function of the two arguments (static check `reverse-attrspec-is-a-function-of-its-arguments`: the body never touches self), and the call does not "
+                "raise (the verified contract TermCanvas.reverse_attrspec has raises=() under AttrSpec's representation invariant, which every AttrSpec value satisfies).")
+class reverse_attrspec_opaque:
+    self_shape = TERM
+    params = dict(attrspec=Opaque("Attr"), undo=Bool)
+    result = Opaque("Attr")
+    raises = ()
+    pure_spec = staticmethod(lambda old, a: REV(a.attrspec, a.undo))
+
+
+@contract(VT + "TermCanvas.reverse_video", property="C15")
+@modelled
+class reverse_video:
+    params = dict(undo=Bool)
+    modifies = ("term",)
+    raises = ()
+    contract_overrides = {VT + "TermCanvas.reverse_attrspec": reverse_attrspec_opaque}
+    static_checks = [_reads_only_its_arguments]
+    loops = {
+        # rows above y done
+        0: Loop(modifies=("self.term",), invariant=lambda v: seq_rows_eq(v.self.term, reversed_where(v.old.self, v.undo, lambda r, x: r < v.i_))),
+        # ... and the cells of row y left of x
+        1: Loop(modifies=("self.term",), invariant=lambda v: seq_rows_eq(v.self.term, reversed_where(v.old.self, v.undo, lambda r, x: either(r < v.y, both(r == v.y, x < v.i_))))),
+    }
+
+    def model(old, a):
+        return upd(old, term=reversed_where(old, a.undo, lambda r, x: True))
+
+    def clauses(old, s, a, result):
+        yield "every-cell-gets-the-reversed-attribute", forall(0, old.height, lambda r: forall(0, old.width, lambda x: eq(cell(s.term, r, x)[0], REV(cell(old.term, r, x)[0], a.undo))))
+        yield "characters-and-charsets-stay", forall(0, old.height, lambda r: forall(0, old.width, lambda x: both(eq(cell(s.term, r, x)[1], cell(old.term, r, x)[1]), eq(cell(s.term, r, x)[2], cell(old.term, r, x)[2]))))
+
+
+# =================================================================================================================
+# 8. TermCanvas.content: the rows shown, incl. the scrolled-back view
+# =================================================================================================================
+# "Lines scrolled off the top are kept, in order, in the scrollback [scroll / resize / scroll_buffer: C15_vterm.py] and
+# shown when the view is scrolled back": with the view offset k = scrolling_up, content() yields the last k rows of
+# the scroll-back followed by the first height - k rows of the grid, each brought to exactly `width` cells.
+# content() is a generator: verified as run to exhaustion in one go (pyvc/interp.py run_function: generator_as_list).
+from contracts.C15_vterm import HELPERS, ROW, SDeque, blank, mkrow, mkrows, row_len  # noqa: E402
+
+SDeque.py_iter = lambda self, ip, st: self.seq  # iteration over a deque (`[*self.scrollback_buffer, ...]`): its elements, oldest first, rows by value
+
+
+def view_row(s, j):
+    """Row j of the view of state s: cells of the scroll-back row / grid row shown there, blanks beyond a short scroll-back row."""
+    sb = s.scrollback_buffer.seq
+    n, k, w = Q.seq_len(sb), s.scrolling_up, s.width
+    srow = Q.seq_get(sb, n - k + j)
+    return mkrow(w, lambda x: ite(j < k, ite(x < Q.seq_len(srow), Q.seq_get(srow, x), blank(s)), cell(s.term, j - k, x)))
+
+
+def _content_inv(v):
+    out = rows_of(v.yielded_)
+    s0 = v.old.self
+    yield "one-row-per-iteration", Q.seq_len(out) == v.i_
+    yield "rows-so-far-are-the-view-rows", seq_rows_eq(out, mkrows(v.i_, lambda j: view_row(s0, j)))
+    yield "canvas-untouched", frame_sgr(s0, v.self)
+
+
+@contract(VT + "TermCanvas.content", property="C15")
+class content:
+    self_shape = TERM
+    params = dict(trim_left=Int, trim_top=Int, cols=Opt(Int), rows=Opt(Int), attr=Const(None))
+    raises = ()
+    invariant = staticmethod(GI)
+    inline = HELPERS
+    replayable = False
+    independent_posts = True
+    generator_as_list = True
+    loops = {0: Loop(modifies=("yielded_",), shapes={"yielded_": ListOf(ROW)}, invariant=_content_inv)}
+
+    def ensures(old, s, a, result):
+        out = rows_of(result)
+        h, w, k = old.height, old.width, old.scrolling_up
+        yield "height-rows", Q.seq_len(out) == h
+        yield "each-row-exactly-width-cells", forall(0, h, lambda j: row_len(out, j) == w)
+        yield "not-scrolled-back-the-grid-itself", implies(k == 0, seq_rows_eq(out, old.term))
+        yield "scrolled-back-the-last-k-scrollback-rows-then-the-top-of-the-grid", seq_rows_eq(out, mkrows(h, lambda j: view_row(old, j)))
+        yield "canvas-untouched", frame_sgr(old, s)
